@@ -294,8 +294,56 @@ class SymPattern(object):
                 return SymMatch(items, st, end, dict(mt.groups))
         return None
 
-    def search(self, subject):
+    def search(self, subject, pos=0):
+        if pos:
+            return self._search_from(subject, pos)
         return self._run(subject, False)
+
+    def _search_from(self, subject, pos):
+        """leftmost match starting at offset >= pos (anchors still see the whole subject)"""
+        if isinstance(subject, (str, bytes)):
+            return self._real.search(subject, pos)
+        items = self._items(subject)
+        if all(isinstance(x, int) for x in items):
+            m = self._real.search(bytes(items), pos)
+            if m is None:
+                return None
+            groups = {}
+            for k in range(1, (self._real.groups or 0) + 1):
+                if m.span(k) != (-1, -1):
+                    groups[k] = m.span(k)
+            return SymMatch(items, m.start(), m.end(), groups)
+        if self._tree is None:
+            self._tree = _parser.parse(self.pattern, self.flags)
+        tree = list(self._tree)
+        for st in range(pos, len(items) + 1):
+            mt = _Matcher(tree, self._tree.state.flags | self.flags, items)
+            for end in mt.seq(tree, 0, st):
+                return SymMatch(items, st, end, dict(mt.groups))
+        return None
+
+    def finditer(self, subject):
+        n = len(subject)
+        pos = 0
+        while pos <= n:
+            m = self._search_from(subject, pos)
+            if m is None:
+                return
+            yield m
+            pos = m.end() if m.end() > m.start() else m.end() + 1
+
+    def findall(self, subject):
+        out = []
+        ng = self._real.groups or 0
+        for m in self.finditer(subject):
+            if ng == 0:
+                out.append(m.group())
+            elif ng == 1:
+                g = m.group(1)
+                out.append(g if g is not None else (b"" if not isinstance(subject, str) else ""))
+            else:
+                out.append(tuple(m.group(k) for k in range(1, ng + 1)))
+        return out
 
     def match(self, subject):
         return self._run(subject, True)
@@ -316,6 +364,14 @@ def search(pattern, subject, flags=0):
 
 def match(pattern, subject, flags=0):
     return compile(pattern, flags).match(subject)
+
+
+def findall(pattern, subject, flags=0):
+    return compile(pattern, flags).findall(subject)
+
+
+def finditer(pattern, subject, flags=0):
+    return compile(pattern, flags).finditer(subject)
 
 
 def __getattr__(name):
